@@ -182,6 +182,8 @@ def reaching_assign (fnode, name):
 def single_def (fnode, name):
   d = reaching_assign(fnode, name)
   if len(d) == 1 and d[0][2] == 'assign': return d[0][0]
+  # the same definition written out in several branches (duplicated by the inlining of a helper's early returns) is one definition
+  if len(d) > 1 and all(k_ == 'assign' and v_ is not None for v_, s_, k_ in d) and len(set(norm(v_) for v_, s_, k_ in d)) == 1: return d[0][0]
   return None
 
 def find_method (repo, cls, name, where='?'):
